@@ -121,7 +121,12 @@ struct Explorer {
             bool proven = false;
             for (auto &p : w.packets)
               if (!p.forged && p.src_server == t.server && p.t_accept >= 0 && (p.kind == RK_CK_VALID || p.kind == RK_CK_VALID2)) proven = true;
-            if (!proven || b.n[EV_ADVANCE] > 0) continue;
+            // time only matters once a cookie-less reply has been read (it starts the regression period); until then
+            // a cookie-less answer stays illegitimate however much time passes (also across a day-old cookie's rotation)
+            bool cookieless_read = false;
+            for (auto &p : w.packets)
+              if (p.src_server == t.server && p.seq_read >= 0 && !(p.kind == RK_CK_VALID || p.kind == RK_CK_VALID2 || p.kind == RK_BADCOOKIE || p.kind == RK_CK_WRONGCLIENT)) cookieless_read = true;
+            if (!proven || (b.n[EV_ADVANCE] > 0 && cookieless_read)) continue;
           }
           if (t.forged >= 1) continue;
           v.push_back(mk(EV_FORGE, t.id, m));
